@@ -270,7 +270,7 @@ func c15FileCase(r *mon.Run, idx int64) {
 	rnd := r.Rand("C15/file", idx)
 	fc := genFileCmt(rnd)
 	c := mon.Case{Gen: "file-level", Seed: r.Seed, Index: idx}
-	desc := fmt.Sprintf("%+q", fc)
+	desc := string(mon.J(fc))
 	src, fail := renderFile(fc.build())
 	if fail != "" {
 		r.Violate("file-comment-render-failure", c, "%s: %s", desc, fail)
@@ -326,7 +326,7 @@ func runC15(r *mon.Run) {
 	c15NegControls(r)
 	items := corpusList(r, "C15", 700, 200, 3000, 1)
 	mon.Parallel(len(items), func(i int) { c15CorpusCase(r, items[i]) })
-	n := r.Pick(3000, 60000)
+	n := r.Pick(3000, 300000)
 	mon.Parallel(n, func(i int) { c15FileCase(r, int64(i)) })
 }
 
